@@ -648,6 +648,8 @@ def evaluate__range_expression(self: XPathToken, context: ta.ContextType = None)
         return xlist(range(start, stop + 1))
     except TypeError:
         return []
+    except OverflowError as err:
+        raise self.error('XPDY0130', err) from None  # too many items for a sequence
 
 
 @method('to')
